@@ -55,7 +55,7 @@ class Check(BaseCheck):
             if c["name"] != "fan3":
                 t = gen.flip_some(rng, t, rng.choice([0.0, 0.1, 0.5, 0.9, 1.0]))
                 t = gen.rotate_rows(rng, t)
-            yield dict(v=c["v"], t=t, name=c["name"])
+            yield dict(v=c["v"], t=t, name=c["name"], pres=c.get("pres"), vdtype=c.get("vdtype"))
         # narrow index dtypes on meshes with more than 256 / many vertices (index arithmetic must not overflow)
         rng = gen.rng_for(self.seed, "c10-dtype")
         v, t = gen.icosphere(3)
@@ -77,6 +77,7 @@ class Check(BaseCheck):
         fails = []
         for c in self.cases():
             v, t = c["v"], c["t"]
+            gen.use(c)
             if c.get("it"):
                 # narrow index dtype: must behave exactly like the int64 run (which other cases tie to the model)
                 ref = core.run_limited(impl_orient, (v, t, None), 60.0)
